@@ -172,5 +172,6 @@ class HelloGetHelloAsString:
     style = "rpc"
     location = "http://localhost:9999/ws/hello"
     transport = "http://schemas.xmlsoap.org/soap/http"
+    soap_action = ""
     input = HelloGetHelloAsStringInput
     output = HelloGetHelloAsStringOutput
